@@ -15,6 +15,7 @@ import (
 	"os/exec"
 	"path/filepath"
 	"regexp"
+	"sort"
 	"strings"
 	"sync"
 	"sync/atomic"
@@ -141,6 +142,7 @@ type restartOut struct {
 	Panic        string            `json:"panic"`
 	TmpLeft      []string          `json:"tmp_left"`
 	Listing      []string          `json:"listing"`
+	ListingAfter []string          `json:"listing_after_lookups"`
 	Probes       map[string]string `json:"probes"`
 }
 
@@ -192,6 +194,7 @@ func childRestart(cfgPath string) {
 	// temp artefacts must also be gone after the lookups (a lookup with the origin down creates and removes some)
 	ents, _ = os.ReadDir(wd)
 	for _, e := range ents {
+		out.ListingAfter = append(out.ListingAfter, e.Name())
 		if tmpRe.MatchString(e.Name()) {
 			out.TmpLeft = append(out.TmpLeft, "after-lookups:"+e.Name())
 		}
@@ -257,6 +260,15 @@ func (l *lab) runChild(mode string, cfg childCfg, timeout time.Duration) (exit i
 	}
 }
 
+func keys(m map[string]bool) []string {
+	var out []string
+	for k := range m {
+		out = append(out, k)
+	}
+	sort.Strings(out)
+	return out
+}
+
 func copyDir(src, dst string) {
 	_ = exec.Command("cp", "-r", src, dst).Run()
 }
@@ -271,7 +283,7 @@ func main() {
 		return
 	}
 	run := report.New("C12", "fault_enumeration")
-	run.Rule("crash run = child process (disk backend, strict CDP, healthy origin in the parent) doing a first load or a refresh, killed with SIGKILL (a) at the k-th hook hit for every k until the run completes without reaching k, (b) right after the j-th write into the staging store for j in {1,2,mid,last-1,last}, (c) thorough: at seeded instants from outside; restart run = fresh child on the crash image with the origin down; scenarios {first load, refresh} x signature {accepted, rejected} x size; oracle: verdict vector over probes {first/middle/last entry unique to old, to new, common, never} equals 'not loaded' (all denied), 'complete old' or 'complete new' (new only if the scenario's CRL is acceptable), no crl_*_tmp entry remains after Provision, restart neither fails nor panics; non-trivial = crash pair in which the child really died at the crash point; distinct = scenario + crash point")
+	run.Rule("crash run = child process (disk backend, strict CDP, healthy origin in the parent) doing a first load or a refresh, killed with SIGKILL (a) at the k-th hook hit for every k until the run completes without reaching k, (b) right after the j-th write into the staging store for j in {1,2,mid,last-1,last}, (c) thorough: at seeded instants from outside, (d) while the body of the download is arriving (the origin sends half of it, then the child is killed); restart run = fresh child on the crash image with the origin down; scenarios {first load, refresh} x signature {accepted, rejected} x size; oracle: verdict vector over probes {first/middle/last entry unique to old, to new, common, never} equals 'not loaded' (all denied), 'complete old' or 'complete new' (new only if the scenario's CRL is acceptable), no crl_*_tmp entry remains after Provision and work_dir holds no name that a run without crash does not leave behind, restart neither fails nor panics; non-trivial = crash pair in which the child really died at the crash point; distinct = scenario + crash point")
 	run.Assume("process death only (SIGKILL): nothing is fsynced by the code and a lost page cache cannot be simulated here", "the kill happens inside the hook call, i.e. between the statements around the hook site")
 	scratch, _ := report.Scratch("C12")
 	bin := os.Getenv("VERIF_ENGINE_BIN")
@@ -388,6 +400,11 @@ func (l *lab) runScenario(si int, sc scenario, rng *rand.Rand) {
 		}
 		return "mixed-or-partial"
 	}
+	// names found in work_dir after the restart of every crash image; judged at the end of the
+	// scenario against the names a run without crash leaves behind (whatever the temporary
+	// artefacts are called, a crash image must not keep more than that)
+	listings := map[string][]string{}
+	var reference map[string]bool
 	evaluate := func(point string, cdir string, died bool) {
 		run.Eval(1)
 		// restart with the origin down
@@ -418,6 +435,13 @@ func (l *lab) runScenario(si int, sc scenario, rng *rand.Rand) {
 		if len(ro.TmpLeft) > 0 {
 			run.Violation(keyBase+".temporary-artefacts-left.after-"+pointClass, fmt.Sprintf("%s: %v remain in work_dir after startup", desc, ro.TmpLeft), rp)
 			return
+		}
+		listings[point] = append(append([]string{}, ro.Listing...), ro.ListingAfter...)
+		if !died && strings.HasPrefix(point, "none") {
+			reference = map[string]bool{}
+			for _, n := range listings[point] {
+				reference[n] = true
+			}
 		}
 		cls := classify(ro.Probes)
 		run.Distinct("image_classes_seen", keyBase+" → "+cls)
@@ -510,6 +534,56 @@ func (l *lab) runScenario(si int, sc scenario, rng *rand.Rand) {
 			_, completed := os.Stat(filepath.Join(cdir, "completed"))
 			evaluate(fmt.Sprintf("external-kill#%d", i), cdir, completed != nil)
 			_ = os.RemoveAll(cdir)
+		}
+	}
+	// (d) while the body of the download is arriving: the origin sends the first half, then the child is killed
+	for i := 0; i < 2; i++ {
+		cdir := newCase()
+		cb, _ := json.Marshal(childCfg{Dir: cdir, URL: url, Refresh: sc.Refresh})
+		cp := filepath.Join(cdir, "child-crash.cfg.json")
+		_ = os.WriteFile(cp, cb, 0644)
+		cmd := exec.Command(l.bin, "child-crash", cp)
+		var killed atomic.Bool
+		hold := time.Duration(20+30*i) * time.Millisecond
+		l.org.Set(path, origin.PartialThen(newDoc, func() {
+			time.Sleep(hold) // let the client write what it has received
+			killed.Store(true)
+			_ = cmd.Process.Kill()
+		}, 2*time.Second))
+		if sc.Refresh {
+			// the child first re-opens the persisted list (no download), then refreshes
+		}
+		_ = cmd.Start()
+		done := make(chan struct{})
+		go func() { _ = cmd.Wait(); close(done) }()
+		select {
+		case <-done:
+		case <-time.After(120 * time.Second):
+			_ = cmd.Process.Kill()
+			<-done
+		}
+		_, completed := os.Stat(filepath.Join(cdir, "completed"))
+		evaluate(fmt.Sprintf("mid-download#%d", i), cdir, killed.Load() && completed != nil)
+		_ = os.RemoveAll(cdir)
+	}
+	serve()
+	// leftovers, whatever they are called
+	if reference != nil {
+		if sc.Refresh {
+			ents, _ := os.ReadDir(filepath.Join(base, "wd"))
+			for _, e := range ents {
+				reference[e.Name()] = true
+			}
+		}
+		for point, names := range listings {
+			for _, n := range names {
+				if !reference[n] {
+					keyBase := fmt.Sprintf("%s.%s", map[bool]string{true: "refresh", false: "first-load"}[sc.Refresh], map[bool]string{true: "accepted", false: "rejected"}[sc.Accepted])
+					pointClass := regexp.MustCompile(`#\d+`).ReplaceAllString(point, "")
+					run.Violation(keyBase+".leftover-in-work_dir.after-"+pointClass, fmt.Sprintf("%s crash-point=%s: %q is in work_dir after the restart, a run without crash leaves only %v", sc, point, n, keys(reference)), &report.Replay{Case: map[string]any{"scenario": sc.String(), "crash_point": point, "listing": names}})
+					break
+				}
+			}
 		}
 	}
 	run.Sample(map[string]any{"scenario": sc.String(), "hook_hits_enumerated": len(hookNames), "hook_sequence": strings.Join(hookNames, " "), "staged_write_points": js})
